@@ -4,6 +4,8 @@ package main
 
 import (
 	"fmt"
+	"os"
+	"runtime/debug"
 	"sort"
 	"go/constant"
 	"go/types"
@@ -23,7 +25,12 @@ type SpecVal struct {
 
 type specErr struct{ msg string }
 
-func specFail(f string, a ...interface{}) { panic(specErr{fmt.Sprintf(f, a...)}) }
+func specFail(f string, a ...interface{}) {
+	if os.Getenv("GOVC_TRACE") != "" {
+		fmt.Fprintf(os.Stderr, "specFail: %s\n%s\n", fmt.Sprintf(f, a...), debug.Stack())
+	}
+	panic(specErr{fmt.Sprintf(f, a...)})
+}
 
 type Env struct {
 	vc    *VC
@@ -39,8 +46,10 @@ type Env struct {
 type labelUnavailable struct{ name string }
 
 type stateLabel struct {
-	st  *State
-	blk *ssa.BasicBlock
+	st    *State
+	blk   *ssa.BasicBlock
+	vars  map[string]SpecVal                 // hint variables at the label (arg0.., res0..)
+	local func(name string) (SpecVal, bool) // source-level locals as of the label
 }
 
 func (e *Env) with(vars map[string]SpecVal) *Env {
@@ -647,6 +656,19 @@ func (vc *VC) evalCall(c SCall, env *Env) SpecVal {
 		}
 		n := *env
 		n.st = lb.st
+		if lb.local != nil {
+			n.local = lb.local
+		}
+		if len(lb.vars) > 0 {
+			merged := map[string]SpecVal{}
+			for k, v := range lb.vars {
+				merged[k] = v
+			}
+			for k, v := range env.vars {
+				merged[k] = v
+			}
+			n.vars = merged
+		}
 		return vc.materialize(vc.eval(c.Args[1], &n), &n)
 	case "has":
 		// has(m, k): k is a key of map m
